@@ -1086,6 +1086,7 @@ def history_program(draw, max_steps=14, max_elems=16, with_shape_assign=True, wi
     made = 0
     attempts = 0
     guard_on = guard_mode != "off"
+    b.guard_on = guard_on
     while made < nsteps and attempts < nsteps * 3:
         attempts += 1
         if guard_mode == "toggle" and draw(st.integers(0, 4)) == 0:
@@ -1100,7 +1101,7 @@ def history_program(draw, max_steps=14, max_elems=16, with_shape_assign=True, wi
 
 # ------------------------------------------------------------------------------- failing statements (C13)
 
-FAIL_KINDS = ["shape_assign_copy", "op_shape", "bad_axis", "view_bad_index", "view_bad_reshape", "view_bad_perm", "setitem_shape",
+FAIL_KINDS = ["out_readonly_array", "bad_constant_flag", "shape_assign_copy", "op_shape", "bad_axis", "view_bad_index", "view_bad_reshape", "view_bad_perm", "setitem_shape",
               "setitem_oob", "out_shape", "readonly_target", "aug_shape", "constant_false_int", "cast_out",
               "bad_dtype", "matmul_shape"]
 
@@ -1128,14 +1129,14 @@ def _ref_rejects(b: Builder, stmt):
     return False
 
 
-def step_fail(b: Builder):
+def step_fail(b: Builder, kind=None, a=None):
     d = b.draw
-    kind = d(st.sampled_from(FAIL_KINDS))
+    kind = kind or d(st.sampled_from(FAIL_KINDS))
     r = b.ref
     tens = [h for h in r.env if r.is_tensor[h] and not r.isint[h]]
     if not tens:
         return None
-    a = b.pick(tens)
+    a = a if a is not None and a in tens else b.pick(tens)
     shp = b.shape(a)
     nd = len(shp)
     inner = None
@@ -1224,6 +1225,24 @@ def step_fail(b: Builder):
         v = b.scalar_leaf()
         inner = {"k": "inplace", "kind": "setitem", "target": t, "args": [v],
                  "p": {"index": {"t": False, "c": [["e"]]}}}
+    elif kind == "out_readonly_array":
+        # out=<ndarray> that cannot be written: natively read-only, or (memory guard on) the data of an operand
+        modes = ["native_ro"] + (["operand_data"] if getattr(b, "guard_on", True) and b.val(a).size > 0 else [])
+        mode = d(st.sampled_from(modes))
+        if mode == "native_ro":
+            c = b.leaf(d(st.sampled_from(["array", "var", "const"])), list(shp))
+            inner = {"k": "bad_out", "op": d(st.sampled_from(["add", "multiply"])), "args": [a, c], "mode": mode,
+                     "via": d(st.sampled_from(["mg", "mg", "np"]))}
+        else:
+            inner = {"k": "bad_out", "op": d(st.sampled_from(["exp", "negative"])), "args": [a], "mode": mode, "via": "mg"}
+        special = True
+    elif kind == "bad_constant_flag":
+        # constant= must be a bool or None (a numpy.bool_ is rejected when the result tensor is built, i.e. after the
+        # forward pass of the op has run on its inputs)
+        name = d(st.sampled_from(["negative", "exp", "sum", "multiply", "add"]))
+        args = [a] if name in ("negative", "exp", "sum") else [a, a]
+        inner = {"k": "op", "h": -1, "op": name, "args": args, "constant": "np_bool"}
+        special = True
     elif kind == "bad_dtype":
         inner = {"k": "op", "h": -1, "op": "add_dtype", "args": [a, a], "p": {"dtype": "not_a_dtype"}}
         special = True
